@@ -58,7 +58,7 @@ def plan(tier):
         "required_counters": ["oracle_tree_compared", "oracle_registration_checked", "benign_exact",
                               "route_L>L", "route_L>A", "route_A>L", "route_A>B", "route_A>A", "route_W>L", "route_L>W",
                               "route_W>W", "route_B>W", "concurrent_groups", "concurrent_overlapping_starts",
-                              "concurrent_exact", "retransfer_judged", "retransfer_exact"],
+                              "concurrent_exact", "retransfer_judged", "retransfer_exact", "local_sweep_cases"],
         "rule": "case = (ordered location pair of 16, file|dir, writable, renamed, destination state of 3, tree, "
                 "name placement); the 16 routes cycle fastest, the 24 other combinations per route in a seeded order (384 cells); trees "
                 "have 0..12 entries (30 in thorough), files up to 70 kB (1 MiB in thorough); ~35% of cases carry a "
@@ -183,9 +183,14 @@ def gen_retransfer(sh: Shard, idx: int, rng) -> dict:
 LOCAL_BATCH = 6  # a local->local transfer costs milliseconds (no subprocess): each visit runs 6 combinations
 
 
-def gen_case(sh: Shard, idx: int, variant: int = 0) -> dict:
-    rng = sh.rng("case", idx, variant) if variant else sh.rng("case", idx)
-    cls = CLS_CYCLE[(idx + idx // len(ROUTES)) % len(CLS_CYCLE)]
+def gen_case(sh: Shard, idx: int, variant: int = 0, sweep: int | None = None) -> dict:
+    """`sweep` = k: the k-th of the 24 combinations on the local->local route (run by every shard before its
+    seeded sequence: these transfers cost milliseconds, so that route is covered exhaustively in every run)."""
+    if sweep is not None:
+        rng = sh.rng("sweep", sh.shard, sweep)
+    else:
+        rng = sh.rng("case", idx, variant) if variant else sh.rng("case", idx)
+    cls = CLS_CYCLE[(idx + idx // len(ROUTES)) % len(CLS_CYCLE)] if sweep is None else "single"
     if cls == "concurrent":
         return gen_concurrent(sh, idx, rng)
     if cls == "retransfer":
@@ -196,6 +201,8 @@ def gen_case(sh: Shard, idx: int, variant: int = 0) -> dict:
     order = list(range(len(COMBOS)))
     sh.rng("combo-order", s, d).shuffle(order)
     kind, writable, renamed, dst_state = COMBOS[order[(idx // len(ROUTES) + variant * (len(COMBOS) // LOCAL_BATCH)) % len(COMBOS)]]
+    if sweep is not None:
+        (s, d), (kind, writable, renamed, dst_state) = ("L", "L"), COMBOS[sweep]
     thorough = not sh.quick()
     hostile = rng.random() < float(os.environ.get("VF_C22_HOSTILE", "0.35"))  # (dev knob; default = the documented 35%)
     placement = rng.choice(PLACEMENTS) if hostile else None
@@ -232,7 +239,7 @@ def gen_case(sh: Shard, idx: int, variant: int = 0) -> dict:
     else:
         tree = T.gen_tree(rng, max_entries=30 if thorough else 12, names=tree_names, sizes=sizes, symlinks=True,
                           max_total=4_000_000 if thorough else 400_000)
-    case = {"idx": idx if not variant else f"{idx}v{variant}", "src_loc": s, "dst_loc": d, "kind": kind, "writable": writable, "dst_state": dst_state,
+    case = {"idx": (idx if not variant else f"{idx}v{variant}") if sweep is None else f"sweep{sh.shard}-{sweep}", "src_loc": s, "dst_loc": d, "kind": kind, "writable": writable, "dst_state": dst_state,
             "src_name": src_name, "dst_name": dst_name, "src_parent": src_parent, "dst_parent": dst_parent,
             "w_mapped": rng.random() < 0.75, "tree": tree, "hostile": hclass, "placement": placement}
     if rng.random() < 0.3:
@@ -737,6 +744,9 @@ def run_shard(sh: Shard) -> None:
     idx = sh.shard
     n = 0
     try:
+        for k in range(len(COMBOS)):  # exhaustive local->local sweep (about a second per shard)
+            run_case(sh, R, gen_case(sh, 0, sweep=k))
+            sh.count("local_sweep_cases")
         while time.time() < deadline:
             case = gen_case(sh, idx)
             batch = [case]
